@@ -27,3 +27,19 @@ func canaryScan(b []byte) (n int) {
 	}
 	return n
 }
+
+//@ func canaryAppend
+//@ property CANARY2
+//@ requires distinctArrays(dst, src)
+//@ modifies dst[len(dst):cap(dst)]
+//@ ensures must-pass-len: len(result) == len(dst)+len(src)+2
+//@ ensures must-pass-first: result[len(dst)] == '"'
+//@ ensures must-pass-prefix: vForall(0, len(dst), func(k int) bool { return result[k] == old(dst[k]) })
+//@ ensures must-pass-body: vForall(0, len(src), func(k int) bool { return result[len(dst)+1+k] == src[k] })
+//@ ensures must-fail-last: result[len(result)-1] == 'x'
+func canaryAppend(dst, src []byte) []byte {
+	dst = append(dst, '"')
+	dst = append(dst, src...)
+	dst = append(dst, '"')
+	return dst
+}
